@@ -542,6 +542,13 @@ def _api(db, chk, m):
     chk.analysed_add("construction_closure", closure)
 
 
+def _in_cpa(m, func_name: str) -> bool:
+    """is an event of the evaluation logged in critical_path_analysis itself or in one of the private helpers it is split into"""
+    fn = m.func("CriticalPathAnalysis.critical_path_analysis")
+    names = {m.qualname_of(g).split(".")[-1] for g in H.with_private_callees(m, fn, depth=2)}
+    return func_name.split(".")[-1].split(":")[-1] in names
+
+
 def _instance_range(db, chk, m):
     """the annotation instances that delimit the window: None -> instance 0; k -> instance k; (first, last) -> instances first..last INCLUSIVE"""
     rule = "C08.R11-instance-range"
@@ -570,7 +577,7 @@ def _instance_range(db, chk, m):
         got = set()
         for r in runs:
             for e in r.events:
-                if e["kind"] == "filter" and e.get("how") == "query" and e["func"].endswith("critical_path_analysis"):
+                if e["kind"] == "filter" and e.get("how") == "query" and _in_cpa(m, e["func"]):
                     for s_ in T.subterms(e["pred"]):
                         if isinstance(s_, tuple) and len(s_) == 2 and s_[0] == "rowslice" and isinstance(s_[1], tuple) and len(s_[1]) == 3 and all(x is None or isinstance(x, int) for x in s_[1]):
                             got.add((s_[1][0] or 0, s_[1][1]))
@@ -610,7 +617,7 @@ def _window(db, chk, m):
         chk.ob(rule, "critical_path_analysis(annotation, instance 0): one path reaching graph construction", None, where, found=len(runs))
         return
     r = runs[0]
-    filt = [e for e in r.events if e["kind"] == "filter" and e["how"] == "query" and e["func"].endswith("critical_path_analysis")]
+    filt = [e for e in r.events if e["kind"] == "filter" and e["how"] == "query" and _in_cpa(m, e["func"])]
     if len(filt) != 2:
         chk.ob(rule, "two window queries (host events, device activities)", None, where, found=len(filt))
         return
@@ -644,7 +651,7 @@ def _window(db, chk, m):
     chk.ob(rule, "device activities selected through THE SAME predicate on their launch call's ts and dur (or Stream Wait Event records)", ds == hs and dev_cols_ok, where, found={"device": ds, "host": hs, "on_launch_columns": dev_cols_ok},
            accepted="identical comparison operators on ts_runtime / dur_runtime",
            why="if the two windows differ at a boundary a kernel is kept without its launch call (or vice versa): the launch nodes are missing and graph construction asserts")
-    j = [e for e in r.events if e["kind"] == "join" and e["func"].endswith("critical_path_analysis")]
+    j = [e for e in r.events if e["kind"] == "join" and _in_cpa(m, e["func"])]
     okj = len(j) == 1 and j[0]["how"] == "left" and j[0]["right_key_terms"] == (T.col(TD, "index_correlation"),) and j[0]["left_key_terms"] == (("index", TD),)
     chk.ob(rule, "a device activity is matched with the host call whose index_correlation is the activity's id", okj, where, found=[(e["how"], T.show(e["left_key_terms"])[:60], T.show(e["right_key_terms"])[:60]) for e in j],
            accepted="gpu rows (indexed by event id) joined with host rows indexed by index_correlation")
